@@ -10,6 +10,7 @@
     R,res,<res>,<err> | R,um | R,to,<c|d|s>   the caller has read this reply (logged after the read)
     X                    the caller calls cancel() / cancels the parent context (logged before)
     Y                    from now on the context may be cancelled at any moment (SendWithReply's deferred cancel)
+    G                    the reply Pub/Sub is closed (logged before): the subscription may end although the context is alive
     F                    OnListenForReplyFinished runs (logged inside the callback)
     Z                    the caller found the reply channel closed and empty
   `<res>` is kept as the hex text, `<err>` is `-` (no error) or `=<hex>`.
@@ -25,6 +26,7 @@ structure W where
   dlv        : List Nat   -- accepted notifications already delivered (each is delivered at most once), sorted
   noted      : Nat        -- how many of the caller's reads have been reported
   mayCancel  : Bool
+  gclosed    : Bool       -- the reply Pub/Sub is being closed
   hasTimeout : Bool
   deriving BEq, Hashable
 
@@ -34,10 +36,11 @@ inductive WA
   | hook
   | note (r : Reply)
   | mayCancel
+  | gclose
 
 inductive Lbl
   | P (res : String) (err : Option String) (bad : Bool)
-  | S | R (r : Reply) | X | Y | F | Z
+  | S | R (r : Reply) | X | Y | G | F | Z
   deriving Repr
 
 def insertSorted (k : Nat) : List Nat → List Nat
@@ -64,9 +67,10 @@ def wact (w : W) : WA → Option W
     | some l => if l.got[w.noted]? == some r then some { w with noted := w.noted + 1 } else none
     | none => none
   | .mayCancel => some { w with mayCancel := true }
+  | .gclose => some { w with gclosed := true }
 
 def taus (w : W) : List WA :=
-  let ended : Bool := match lis w with | some l => l.ctx != .live && !l.subClosed | none => false
+  let ended : Bool := match lis w with | some l => (l.ctx != .live || w.gclosed) && !l.subClosed | none => false
   ((List.range w.st.pub.length).filter (fun k => !w.dlv.contains k)).map .dlv
   ++ [.m (.l 0 .ctx), .m (.l 0 .recv), .m (.l 0 .subClosed), .m (.l 0 .send), .m (.l 0 .sendCtx), .m (.l 0 .cancel),
       .m (.l 0 .close), .m (.c 0 .recv)]
@@ -80,6 +84,7 @@ def byLabel (w : W) : Lbl → List (List WA)
   | .R r => [[.note r]]
   | .X => [[.m (.c 0 .cancel)]]
   | .Y => [[.mayCancel]]
+  | .G => [[.gclose]]
   | .F => [[.m (.l 0 .finish)]]
   | .Z =>
     match lis w with
@@ -110,13 +115,14 @@ def parseTok (t : String) : Option Lbl :=
   | ["R", "to", "s"] => some (.R (.timeout .subClosed))
   | ["X"] => some .X
   | ["Y"] => some .Y
+  | ["G"] => some .G
   | ["F"] => some .F
   | ["Z"] => some .Z
   | _ => none
 
 def initW (hasTimeout : Bool) : W :=
   let s := match act true (init false) .newReq with | some s => s | none => init false
-  { st := s, hooked := false, dlv := [], noted := 0, mayCancel := false, hasTimeout := hasTimeout }
+  { st := s, hooked := false, dlv := [], noted := 0, mayCancel := false, gclosed := false, hasTimeout := hasTimeout }
 
 /-- `lst … <hasTimeout> <tok>*` → `ok` | `reject@<i>` | `bad-op` -/
 def checkLst (hasTimeout : Bool) (toks : List String) : String :=
